@@ -19,7 +19,7 @@ import types
 from harness import gen, pdl, engine
 from harness.common import CoqBatch, Names, BUILD, c_list, c_pair, c_pos, c_nat, c_opt, c_Z, canon
 
-IMPORTS = ["Base", "Cache", "CheckLib"]
+IMPORTS = ["Base", "Cache", "CheckLib", "DiskStore"]
 
 
 # ----------------------------------------------------------------------------- (A) LRU
@@ -122,6 +122,92 @@ class Tripwire:
 
     def __reduce__(self):
         return (_trip, (self.tag,))
+
+
+def store_part(ctx, batch, N):
+    """One complete set, then ONE alteration of the store's records, then one get - for every alteration class incl. records
+    replaced by pickled objects and by texts that are no signature - against coq/theories/DiskStore.v (store_get with the
+    raw-only Disk): hit / miss and the value, no exception, nothing unpickled that was not authenticated."""
+    import logging
+    from hypergraph.cache import DiskCache
+    logging.disable(logging.CRITICAL)
+    rng = ctx.rng
+    root = BUILD / "tmp" / "c09s"
+    shutil.rmtree(root, ignore_errors=True)
+    root.mkdir(parents=True)
+    kinds = ["none", "flip", "trunc", "ptext", "ppickle", "sigforged", "sigint", "sigpickle", "sigtext", "dropsig", "droppayload", "torn_over_good"]
+    n = 0
+    try:
+        for rep in range(ctx.n(2, 12)):
+            for kind in kinds:
+                d = root / f"s{rep}_{kind}"
+                dc = DiskCache(str(d))
+                k = "k0"
+                v = rng.randint(0, 99)
+                dc.set(k, v)
+                kp = c_pos(N(k))
+                good = f"(VInt {c_Z(v)}, 0%nat)"
+                payload = f"(Some (RRaw cbytes ctag {good}))"
+                sig = f"(Some (RText cbytes ctag (cmac {kp} {good})))"
+                raw = dc._cache.get(k)
+                if kind == "flip":
+                    dc._cache.set(k, bytes([raw[0] ^ 1]) + raw[1:])
+                    payload = f"(Some (RRaw cbytes ctag (VInt {c_Z(v)}, 1%nat)))"
+                elif kind == "trunc":
+                    dc._cache.set(k, raw[:-1])
+                    payload = f"(Some (RRaw cbytes ctag (VInt {c_Z(v)}, 2%nat)))"
+                elif kind == "ptext":
+                    dc._cache.set(k, "not-bytes")
+                    payload = "(Some (RTextOther cbytes ctag))"
+                elif kind == "ppickle":
+                    dc._cache.set(k, Tripwire(f"store-payload:{kind}"))
+                    payload = "(Some (RPickle cbytes ctag (VNone, 7%nat)))"
+                elif kind == "sigforged":
+                    dc._cache.set(k + ":hmac", "0" * 64)
+                    sig = f"(Some (RText cbytes ctag (1%positive, VNone, 5%nat)))"
+                elif kind == "sigint":
+                    dc._cache.set(k + ":hmac", 12345)
+                    sig = "(Some (RTextOther cbytes ctag))"
+                elif kind == "sigpickle":
+                    dc._cache.set(k + ":hmac", Tripwire(f"store-sig:{kind}"))
+                    sig = "(Some (RPickle cbytes ctag (VNone, 8%nat)))"
+                elif kind == "sigtext":
+                    dc._cache.set(k + ":hmac", "\u00e9" * 64)
+                    sig = "(Some (RTextOther cbytes ctag))"
+                elif kind == "dropsig":
+                    dc._cache.delete(k + ":hmac")
+                    sig = "None"
+                elif kind == "droppayload":
+                    dc._cache.delete(k)
+                    payload = "None"
+                elif kind == "torn_over_good":
+                    w = rng.randint(100, 199)
+                    dc._cache.set(k, pickle.dumps(w))          # the first of the two writes of set(k, w)
+                    payload = f"(Some (RRaw cbytes ctag (VInt {c_Z(w)}, 0%nat)))"
+                del TRIPPED[:]
+                case = {"family": "store", "alteration": kind, "value": v}
+                try:
+                    hit, got = dc.get(k)
+                except Exception as e:  # noqa: BLE001
+                    ctx.violation("oracle", f"DiskCache.get raised {type(e).__name__}: {e} after the alteration {kind!r}", case=case)
+                    continue
+                finally:
+                    try:
+                        dc._cache.close()
+                    except Exception:  # noqa: BLE001
+                        pass
+                n += 1
+                if TRIPPED:
+                    ctx.violation("oracle", f"after the alteration {kind!r}, DiskCache.get unpickled a record nobody authenticated ({TRIPPED[:2]})", case=case)
+                    del TRIPPED[:]
+                if hit and got != v:
+                    ctx.violation("oracle", f"after the alteration {kind!r}, DiskCache.get returned {got!r}; the only complete set stored {v!r}", case=case)
+                real = f"(SHit (VInt {c_Z(got)}))" if hit else "SMiss"
+                batch.add(40000 + n, 111, "sres_eqb", f"fst (store_get cbytes ctag cteqb cdeser cmac true {kp} {payload} {sig})", real)
+    finally:
+        logging.disable(logging.NOTSET)
+        shutil.rmtree(root, ignore_errors=True)
+    return n
 
 
 def disk_part(ctx, batch, N):
@@ -670,6 +756,7 @@ def run(ctx):
     batch = CoqBatch("C09", IMPORTS, shard=300, preamble=PREAMBLE)
     n1, t1 = lru_part(ctx, batch, N)
     n2, t2 = disk_part(ctx, batch, N)
+    n2 += store_part(ctx, batch, N)
     n3, t3 = program_part(ctx)
     n4 = same_definition_part(ctx) + container_part(ctx) + same_gate_function_part(ctx) + mutating_args_part(ctx) + factory_closures_part(ctx)
     from harness.props.c14 import cached_interrupt_part
@@ -694,6 +781,8 @@ def run(ctx):
 
 
 PREAMBLE = """
+Definition sres_eqb (a b : sres) : bool :=
+  match a, b with SMiss, SMiss => true | SHit x, SHit y => val_eqb x y | _, _ => false end.
 Definition dres_eqb (a b : dres) : bool :=
   match a, b with Miss, Miss => true | Hit x, Hit y => val_eqb x y | _, _ => false end.
 Definition disk_gets (ops : list (dop cbytes ctag)) : list dres :=
